@@ -174,6 +174,9 @@ def build(quick):
                             if N >= 5:
                                 bound = 3
                             items.append((dict(N=N, ll=list(prof), path="inmem", opts=base), bound))
+                            if 2 <= N <= 3 and nlin == 1 and mps is None and not isbad:
+                                # the random-order option given on the in-memory path
+                                items.append((dict(N=N, ll=list(prof), path="inmem", opts=dict(base, randomize_prior_order=True)), bound))
                             # file paths: a sub-product (each execution costs ~30 ms)
                             if N <= (3 if quick else 4) and nlin == 1 and (not isbad or N <= 2) and mps in (None, N - 1, N):
                                 for path in ("obj", "file"):
